@@ -79,6 +79,7 @@ NEEDS = {
     "RC17b": ("C17", "Deflate wrapper remembers keys as stored before the backend write", "a refused backend write followed by a retry of the same key through the same wrapper"),
     "RC19a": ("C19", "an unanchored '1-<digest>' pattern tried first in Revision::from", "an index of two or more digits ending in 1 (11, 21, ...)"),
     "RC19b": ("C19", "stage_full_snapshot derives the new identifier from the first diff leaf instead of the winner", "stage_full_snapshot while the array has two or more live leaves"),
+    "X-F18revert": ("C03", "revert of fix 1986a71 (finding F18)", "a value or commit metadata nested deeper than ~126 levels, then reopen / cache eviction / meld"),
     "X-F1revert": ("C08", "revert of fix 1f69feb (finding F1)", "commit with a flattened array in conflict"),
 }
 
